@@ -4,7 +4,7 @@ from __future__ import annotations
 
 import copy
 
-from .core import outcome, octs, after_pack, rxbuf
+from .core import outcome, octs, after_pack, rxbuf, decoded
 from .probe import decode_other, poison, twin
 
 KIND_ORDER = ["eof", "finished", "ack", "metadata", "nak", "prompt", "keepalive", "filedata"]
@@ -259,6 +259,9 @@ def proj_pdu(obj):
     return {"kind": kind, "cfg": cfg, "p": p}
 
 
+KIND_NAMES = ("eof", "finished", "ack", "metadata", "nak", "prompt", "keepalive", "filedata")
+
+
 def pdu_class(kind):
     from spacepackets.cfdp import pdu as P
     return {"eof": P.EofPdu, "finished": P.FinishedPdu, "ack": P.AckPdu, "metadata": P.MetadataPdu, "nak": P.NakPdu,
@@ -306,7 +309,7 @@ def op_cfdphdr_unpack(a):
     from spacepackets.cfdp.pdu.header import PduHeader
 
     def run():
-        d = PduHeader.unpack(bytes(a["octets"]))
+        d = decoded(lambda: PduHeader.unpack(bytes(a["octets"])))
         return {"h": proj_hdr(d), "hlen": d.header_len, "repack": octs(d.pack())}
     return outcome(run)
 
@@ -329,7 +332,7 @@ def op_lv_unpack(a):
     from spacepackets.cfdp.lv import CfdpLv
 
     def run():
-        d = CfdpLv.unpack(bytes(a["octets"]))
+        d = decoded(lambda: CfdpLv.unpack(bytes(a["octets"])))
         return {"v": octs(d.value), "plen": d.packet_len}
     return outcome(run)
 
@@ -355,7 +358,7 @@ def op_tlv_unpack(a):
     from spacepackets.cfdp.tlv import CfdpTlv
 
     def run():
-        d = CfdpTlv.unpack(bytes(a["octets"]))
+        d = decoded(lambda: CfdpTlv.unpack(bytes(a["octets"])))
         return {"tlv": {"t": int(d.tlv_type), "v": octs(d.value)}, "plen": d.packet_len}
     return outcome(run)
 
@@ -430,7 +433,7 @@ def _ctlv_rt_body(a, o):
 
 def op_ctlv_unpack(a):
     def run():
-        d = _via(a["cls"], a["octets"], a.get("via", "unpack"))
+        d = decoded(lambda: _via(a["cls"], a["octets"], a.get("via", "unpack")))
         out = {"p": proj_ctlv(a["cls"], d), "plen": d.packet_len}
         if len(d.pack()) != d.packet_len:           # "reports its packed length correctly" also for a decoded object
             out["repack_len"] = len(d.pack())
@@ -537,7 +540,7 @@ def op_pdu_unpack(a):
 
     def run():
         buf = bytes(a["octets"])
-        d = PduFactory.from_raw(buf) if a["want"] == "any" else pdu_class(a["want"]).unpack(buf)
+        d = decoded(lambda: PduFactory.from_raw(buf) if a["want"] == "any" else pdu_class(a["want"]).unpack(buf))
         if d is None:
             return {"exc": "value"}        # the factory's documented "not a known directive" answer
         return {"pdu": proj_pdu(d), "plen": d.packet_len}
